@@ -176,6 +176,25 @@ theorem step_entryInv (o : Ops) (s : MSt) (e : MEv) (s' : MSt) (h : EntryInv s.c
     | none =>
     rw [hx] at hs
     simp only at hs
+    cases hl : lgKind (handlerName (startPre o s.c tag attrs).1 tag) with
+    | some kind =>
+      rw [hl] at hs
+      simp only at hs
+      cases hr : startLG o (startPre o s.c tag attrs).1 kind (startPre o s.c tag attrs).2 with
+      | error w => rw [hr] at hs; simp [applyExt] at hs
+      | ok r =>
+        obtain ⟨c', es⟩ := r
+        have hf := startLG_frame4 _ _ _ _ _ _ hr
+        rw [hr] at hs
+        simp only [applyExt, Outcome.ok.injEq] at hs
+        rw [← hs]
+        intro hi
+        simp only at hi ⊢
+        rw [hf.1] at hi
+        exact hf.nonempty (hp hi)
+    | none =>
+    rw [hl] at hs
+    simp only at hs
     cases hd : dispatchCore (startPre o s.c tag attrs).1 (handlerName (startPre o s.c tag attrs).1 tag) (startPre o s.c tag attrs).2 with
     | error w => rw [hd] at hs; simp [applyDispatch] at hs
     | ok r =>
@@ -213,11 +232,18 @@ theorem step_entryInv (o : Ops) (s : MSt) (e : MEv) (s' : MSt) (h : EntryInv s.c
     · split at hs
       · injection hs with hs; rw [← hs]; intro hi; simp [endFinish] at hi
       · split at hs
-        · injection hs with hs; rw [← hs]
-          exact setContext_entryInv _ _ _ (pop_entryInv o s _ h)
+        · obtain ⟨c1, st, hf, hs', _⟩ := endLG_ok o s s' _ hs
+          rw [hs']
+          intro hi
+          simp only [endFinish] at hi ⊢
+          rw [hf.1] at hi
+          exact hf.nonempty (h hi)
         · split at hs
-          · cases hs
-          · injection hs with hs; rw [← hs]; exact pop_entryInv o s _ h
+          · injection hs with hs; rw [← hs]
+            exact setContext_entryInv _ _ _ (pop_entryInv o s _ h)
+          · split at hs
+            · cases hs
+            · injection hs with hs; rw [← hs]; exact pop_entryInv o s _ h
   | data t =>
     simp only [mstep] at hs
     injection hs with hs
@@ -254,18 +280,18 @@ handler-less elements — it yields a state: `pop` on an empty or mismatched sta
 def Modelled (c : Core) : MEv → Prop
   | .start tag attrs =>
       c.incontent = false ∧
-      ∀ o : Ops, extKind (handlerName (startPre o c tag attrs).1 tag) = none ∧
+      ∀ o : Ops, extKind (handlerName (startPre o c tag attrs).1 tag) = none ∧ lgKind (handlerName (startPre o c tag attrs).1 tag) = none ∧
         (dispatchCore (startPre o c tag attrs).1 (handlerName (startPre o c tag attrs).1 tag) (startPre o c tag attrs).2).isOk = true
   | .stop tag => let h := handlerName c tag
-      c.incontent = false ∧ contentEndKey h = none ∧ extKind h = none ∧
+      c.incontent = false ∧ contentEndKey h = none ∧ extKind h = none ∧ lgKind h = none ∧
       (h == S "channel" || h == S "feed" || h == S "item" || h == S "entry" || (dateKey h).isSome || !hasEnd h) = true
   | _ => True
 
 theorem step_total (o : Ops) (s : MSt) (e : MEv) (hm : Modelled s.c e) : ∃ s', mstep o s e = .ok s' := by
   cases e with
   | start tag attrs =>
-    simp only [mstep, startTag, hm.1, Bool.false_eq_true, ↓reduceIte, startTag0, (hm.2 o).1]
-    have := (hm.2 o).2
+    simp only [mstep, startTag, hm.1, Bool.false_eq_true, ↓reduceIte, startTag0, (hm.2 o).1, (hm.2 o).2.1]
+    have := (hm.2 o).2.2
     cases hd : dispatchCore (startPre o s.c tag attrs).1 (handlerName (startPre o s.c tag attrs).1 tag) (startPre o s.c tag attrs).2 with
     | error w => rw [hd] at this; simp [Except.isOk, Except.toBool] at this
     | ok r =>
@@ -275,8 +301,8 @@ theorem step_total (o : Ops) (s : MSt) (e : MEv) (hm : Modelled s.c e) : ∃ s',
       | some el => exact ⟨_, rfl⟩
   | stop tag =>
     simp only [Modelled] at hm
-    obtain ⟨hm1, hm2, hm3, hm⟩ := hm
-    simp only [mstep, endTag, hm1, hm2, hm3, Bool.false_eq_true, ↓reduceIte, Option.isSome_none, Bool.or_self, endTag0]
+    obtain ⟨hm1, hm2, hm3, hm4, hm⟩ := hm
+    simp only [mstep, endTag, hm1, hm2, hm3, hm4, Bool.false_eq_true, ↓reduceIte, Option.isSome_none, Bool.or_self, endTag0]
     by_cases c1 : (handlerName s.c tag == S "channel" || handlerName s.c tag == S "feed") = true
     · simp only [c1, ↓reduceIte]; exact ⟨_, rfl⟩
     · simp only [c1, Bool.false_eq_true, ↓reduceIte]
@@ -429,6 +455,23 @@ theorem step_cpInv (o : Ops) (s : MSt) (e : MEv) (s' : MSt) (h : CpInv s.c) (hs 
     | none =>
       rw [hx] at hs
       simp only at hs
+      cases hl : lgKind (handlerName (startPre o s.c tag attrs).1 tag) with
+      | some kind =>
+        rw [hl] at hs
+        simp only at hs
+        cases hr : startLG o (startPre o s.c tag attrs).1 kind (startPre o s.c tag attrs).2 with
+        | error w => rw [hr] at hs; simp [applyExt] at hs
+        | ok r =>
+          obtain ⟨c', es⟩ := r
+          have hf := startLG_frame4 _ _ _ _ _ _ hr
+          rw [hr] at hs
+          simp only [applyExt, Outcome.ok.injEq] at hs
+          rw [← hs]
+          apply keep
+          exact hf.2.2.2.2.2.2.2.1.trans hpi
+      | none =>
+      rw [hl] at hs
+      simp only at hs
       cases hd : dispatchCore (startPre o s.c tag attrs).1 (handlerName (startPre o s.c tag attrs).1 tag) (startPre o s.c tag attrs).2 with
       | error w => rw [hd] at hs; simp [applyDispatch] at hs
       | ok r =>
@@ -462,13 +505,19 @@ theorem step_cpInv (o : Ops) (s : MSt) (e : MEv) (s' : MSt) (h : CpInv s.c) (hs 
     · split at hs
       · injection hs with hs; rw [← hs]; apply keep; simp only [endFinish]; rw [pop_incontent]; exact hnc'
       · split at hs
-        · injection hs with hs; rw [← hs]; apply keep
+        · obtain ⟨c1, st, hf, hs', _⟩ := endLG_ok o s s' _ hs
+          rw [hs']
+          apply keep
           simp only [endFinish]
-          unfold setContext
-          split <;> (simp only; rw [pop_incontent]; exact hnc')
+          exact hf.2.2.2.2.2.2.2.1.trans hnc'
         · split at hs
-          · cases hs
-          · injection hs with hs; rw [← hs]; apply keep; simp only [endFinish]; rw [pop_incontent]; exact hnc'
+          · injection hs with hs; rw [← hs]; apply keep
+            simp only [endFinish]
+            unfold setContext
+            split <;> (simp only; rw [pop_incontent]; exact hnc')
+          · split at hs
+            · cases hs
+            · injection hs with hs; rw [← hs]; apply keep; simp only [endFinish]; rw [pop_incontent]; exact hnc'
   | data t =>
     simp only [mstep] at hs
     injection hs with hs
